@@ -312,6 +312,37 @@ def climb (stack : List (Str × Str)) (ownDir : Str) : Except Err (Str × Str) :
   | some x => .ok x
   | none => .error (.internal .index)
 
+/-- `find_path_entry(path)` on the identified state: the first matching entry object, with its Manifest -/
+def findIdInLoaded (s : St) (path : Str) : Option (Str × Nat × Entry) :=
+  ((iterManifests s.plain path false).flatMap fun (k, rel, _) =>
+    (s.entriesOf k).filterMap fun ie =>
+      match ie.2 with
+      | .ignore p => if pathStartsWith path (pjoin rel p) then some (k, ie.1, ie.2) else none
+      | .timestamp _ => none
+      | .file .DIST _ _ _ => none
+      | .file _ _ _ _ => if pjoin rel ie.2.fullPath == path then some (k, ie.1, ie.2) else none).head?
+
+/-- `while old is not None and old.tag != 'IGNORE': … om.entries = [x for x in om.entries if x is not old] …`:
+    drop every file-entry object `find_path_entry(iep)` still finds, from each Manifest applying to `iep` that
+    holds it (and its pending item of the update dict: `entry_dict.pop(iep, None)`); the result says whether an IGNORE
+    entry covers the path in the end, and whether anything was dropped -/
+def dropOldEntries (w : World) (iep : Str) : Nat → St → Bool → Except Err (St × Bool × Bool)
+  | 0, s, dropped => match findIdInLoaded s iep with
+    | none => .ok (s, false, dropped)
+    | some (_, _, .ignore _) => .ok (s, true, dropped)
+    | some _ => .error .abstain
+  | fuel + 1, s, dropped =>
+    match findIdInLoaded s iep with
+    | none => .ok (s, false, dropped)
+    | some (_, _, .ignore _) => .ok (s, true, dropped)
+    | some (_, id, _) =>
+      let s' := (iterManifests s.plain iep false).foldl (fun (acc : St) (kdv : Str × Str × List Entry) =>
+        if (acc.idsOf kdv.1).contains id then (acc.setIds kdv.1 ((acc.idsOf kdv.1).filter (· != id))).markUpdated kdv.1
+        else acc) s
+      match s'.load w iep false true with
+      | .error e => .error e
+      | .ok s'' => dropOldEntries w iep fuel s'' true
+
 def isFileNode : Node → Bool
   | .dir _ _ _ => false
   | _ => true
@@ -390,8 +421,8 @@ def updateDirStep (w : World) (o : Opts) (newMs : List Str) (ws : WSt) (sysPath 
     | .ok (st2, ud2, stack2, news2) =>
     -- a new Manifest for this directory?
     let needNew := wantM && (stack2.getLast?.map (·.2)) != some rel
-    let mkNew : Except Err (St × List (Str × Str) × List NewEntry × List Str) :=
-      if !needNew then .ok (st2, stack2, news2, [])
+    let mkNew : Except Err (St × List (Str × Str) × List NewEntry × List Str × List Str) :=
+      if !needNew then .ok (st2, stack2, news2, [], [])
       else
         let mp := pjoin rel sManifest
         -- `create_manifest`: an existing file there is loaded (and may fail to parse); else a new empty one
@@ -405,21 +436,27 @@ def updateDirStep (w : World) (o : Opts) (newMs : List Str) (ws : WSt) (sysPath 
         | .ok st3 =>
           let ips := ignorePaths o.profile rel
           -- `if self.find_path_entry(iep): raise NotImplementedError`
-          match foldE (fun (acc : St × List Str) (ip : Str) =>
+          match foldE (fun (acc : St × List Str × List Str) (ip : Str) =>
               let iep := pjoin rel ip
               match acc.1.load w iep false true with
               | .error e => .error e
               | .ok st' =>
-                match findInLoaded st'.plain iep with
-                | some _ => .error (.internal .other)
-                | none => .ok (st'.append mp (Entry.ignore ip), acc.2 ++ [iep]))
-              (st3, []) ips with
+                -- repair of finding F26 (was `raise NotImplementedError`): the old file entries of the
+                -- now-ignored path are removed from the parent Manifests, by identity; a path that a
+                -- parent Manifest IGNOREs gets no second IGNORE
+                match dropOldEntries w iep st'.heap.length st' false with
+                | .error e => .error e
+                | .ok (st'', true, dr) => .ok (st'', acc.2.1, if dr then acc.2.2 ++ [iep] else acc.2.2)
+                | .ok (st'', false, dr) =>
+                  .ok (st''.append mp (Entry.ignore ip), acc.2.1 ++ [iep], if dr then acc.2.2 ++ [iep] else acc.2.2))
+              (st3, [], []) ips with
           | .error e => .error e
-          | .ok (st4, newIgn) =>
-            .ok (st4, stack2 ++ [(mp, rel)], news2 ++ [{ e := Entry.file .MANIFEST mp 0 [], isManifest := true }], newIgn)
+          | .ok (st4, newIgn, dropped) =>
+            .ok (st4, stack2 ++ [(mp, rel)], news2 ++ [{ e := Entry.file .MANIFEST mp 0 [], isManifest := true }], newIgn, dropped)
     match mkNew with
     | .error e => .error e
-    | .ok (st5, stack5, news5, newIgn) =>
+    | .ok (st5, stack5, news5, newIgn, dropped) =>
+    let ud2 := ud2.filter fun kv => !dropped.contains kv.1
     -- place the new entries
     if news5.isEmpty then .ok ({ ws with st := st5, ud := ud2, stack := stack5, ids := ids' }, keep)
     else
